@@ -67,19 +67,27 @@ CLAIMED = {
         "DESIGN.md §6 C01",
     ),
     "C02": (
-        "Lean 4 theorems (scanner completeness reduced to local key conditions, matcher/limit completeness, no-duplicates; SQL WHERE completeness under the table invariant) + differential correspondence on both backends + reference-answer oracle",
-        "Proof: NostrRelay/Props/C02.lean proves for every sorted store, every match list and every target key that the "
-        "LMDB scanner yields the key's event id when the keys between it and the seek position pass the in-match tests and "
-        "the earlier matches end with 'next match' (C02_kv_scan_complete); that execute_one_plan delivers every stored "
-        "candidate passing the residual filter when the limit does not truncate, never twice; that strict NIP-01 matching "
-        "implies the residual filter; and on SQL that every stored row strictly matching a well-formed filter satisfies "
-        "its WHERE predicate (rows pairwise distinct). The classes where the current code is incomplete are Lean witnesses "
-        "(decide +kernel) + known findings. Tie/search as C01, plus the oracle 'strict matches under the limit are all "
-        "delivered once' with every planner index exercised (distribution in the evidence).",
-        "Trusted: as C01. The instantiation of the scanner's local conditions from the key layout is proved for the "
-        "fixed-width indexes in Props/C02Scan.lean when present; until then the KV completeness theorem is conditional on "
-        "those hypotheses and the unconditional claim rests on the correspondence + oracle. Domain: well-formed conjunctive "
-        "filters (not {} / pure unbounded range scans, ids/authors of 64 hex digits, no `search`).",
+        "Lean 4 theorems (scanner completeness: abstract over local key conditions, then discharged for the fixed-width indexes of every reachable store; matcher/limit completeness, no-duplicates; SQL WHERE completeness under the table invariant) + differential correspondence on both backends + reference-answer oracle",
+        "Proof: Props/C02.lean proves for every sorted store, every match list and every target key that the LMDB scanner "
+        "yields the key's event id when the keys between it and the seek position pass the in-match tests and the earlier "
+        "matches end with 'next match' (C02_kv_scan_complete). Props/C02Scan.lean discharges those conditions: lexicographic "
+        "lemmas on byte strings; scan_complete_fixed (match values of one length in descending order over a sorted store "
+        "with the top sentinel whose keys under them have the shape match 00 ts 00 id: every key with its timestamp in the "
+        "window is yielded); the kinds, authors and author+kind indexes of a coherent store have that shape; every store "
+        "the writer can produce is sorted and keeps the sentinel (wk_reachable, by induction over writer tasks). Hence, "
+        "with no hypothesis about neighbouring keys, for every history of writer tasks: C02_kv_kinds_complete_reachable, "
+        "C02_kv_authors_complete_reachable, C02_kv_authorkinds_complete_reachable, and at the level of a REQ filter "
+        "C02_kv_kinds_filter_complete (every stored event matching {kinds, since?, until?} under the strict NIP-01 reading "
+        "is delivered when the limit does not truncate). Also: execute_one_plan delivers every stored candidate passing the "
+        "residual filter, never twice; strict matching implies the residual filter; on SQL every stored row strictly "
+        "matching a well-formed filter satisfies its WHERE predicate (rows pairwise distinct). The classes where the "
+        "current code is incomplete are Lean witnesses + known findings. Tie/search as C01, plus the oracle 'strict matches "
+        "under the limit are all delivered once' with every planner index exercised (distribution in the evidence).",
+        "Partial: filter-level corollaries are proved for kinds filters and for authors filters; for author+kind they stop at the "
+        "scanner level (the plan's match list is taken as given, in descending order); the variable-width tag index and "
+        "MultiIndex plans are covered by the conditional theorem, the witness of the open finding kv-tag-prefix-since and "
+        "the search only. Trusted: as C01. Domain: well-formed conjunctive filters (not {} / pure unbounded range scans, "
+        "ids/authors of 64 hex digits, no `search`).",
         "DESIGN.md §6 C02",
     ),
     "C12": (
@@ -113,7 +121,11 @@ CLAIMED = {
         "Proof: NostrRelay/Props/C09.lean proves for every coherent LMDB store and every added event that whatever "
         "disappears is not the new event, has the new event's author and kind, is not newer and (kinds 30000-39999) has "
         "the same d value — first d tag, \"\" when missing or bare — and that regular events remove nothing "
-        "(kv_add_removed_spec, via scanner soundness, big-endian order and key ownership in Props/KVScan.lean); for SQL "
+        "(kv_add_removed_spec, via scanner soundness, big-endian order and key ownership in Props/KVScan.lean); "
+        "Props/C09Complete.lean adds completeness: C09_kv_older_gone — in every coherent, sorted store with the sentinel "
+        "(hence every store the writer can produce), when the transaction of a new replaceable event succeeds every other "
+        "stored event of the same author, kind and (30000-39999) d value that is not newer is gone afterwards, via the "
+        "unconditional completeness of the author+kind index scan (C02Scan) and replaceLoop_complete; for SQL "
         "that every row that disappears has the new event's address and is strictly older, that after an accepted "
         "replaceable event no older version of its address is left, and that nothing at least as new is removed. Both "
         "backends violated C09 on the pinned tree (d-tag substring test / missing d deletes all on LMDB; only one older "
@@ -128,10 +140,13 @@ CLAIMED = {
         "published by the deletion's pubkey, is strictly older and is the hex decoding of one of its e tags "
         "(C08_kv_delete_frame, deletionRefs_mem); for SQL that after a committed new kind-5 event a row is present iff it "
         "was present and is not (same pubkey and referenced) — frame and completeness in one statement "
-        "(C08_sql_delete_exact). LMDB completeness (every own, referenced, older event disappears) rests on scanner "
-        "completeness for the author index, which is proved only conditionally (C02_kv_scan_complete) and is otherwise "
-        "checked by the correspondence and the oracle (incl. get_event and a query by id after the deletion). Two LMDB "
-        "defects found by this check were repaired (seek sentinel at until; abort on a malformed e tag).",
+        "(C08_sql_delete_exact). LMDB completeness is Props/C08Complete.lean: C08_kv_delete_complete — in every coherent, "
+        "sorted store with the sentinel (hence every store the writer can produce: ..._reachable), when the transaction of "
+        "a new kind-5 event succeeds, every stored event of the same author that it references and that is strictly older "
+        "is gone afterwards; it rests on the unconditional completeness of the authors-index scan (C02Scan) and on "
+        "deleteLoop_complete. The oracle also checks get_event and a query by id after the deletion, and deletions with "
+        "no usable reference. Two LMDB defects found by this check were repaired (seek sentinel at until; abort on a "
+        "malformed e tag).",
         "Trusted: as C09/C10. Validators disabled for the synthetic histories. 'Referenced' = an e tag whose value "
         "bytes.fromhex / kv.bytes_from_hex decodes to the id (upper case and the odd-length fix-up included).",
         "DESIGN.md §6 C08",
